@@ -57,7 +57,9 @@ Judge(ph, i) ==
          IN [why |-> IF SeqSet(x.dec) # msg THEN "DecodeOfEncodeIsMessage(repair)"
                      ELSE IF SeqSet(x.decraw) # msg THEN "DecodeOfEncodeIsMessage(no repair)"
                      ELSE IF SeqSet(x.cw) # lin THEN "EncoderLinear"
-                     ELSE IF x.len # 196 THEN "EncodesTo196Bits" ELSE "ok",
+                     ELSE IF x.len # 196 THEN "EncodesTo196Bits"
+                     \* all 196 transmitted bits, the reserved ones included: x.rep = the codeword after repair
+                     ELSE IF SeqSet(x.rep) # SeqSet(x.cw) THEN "ErrorFreeCodewordNeverAlteredByRepair" ELSE "ok",
              dr |-> "ok", design |-> "ok"]
     [] ph = "struct" ->
          \* layout facts: the learned transmitted position of info bit i is the ETSI position of its matrix cell;
